@@ -1219,12 +1219,14 @@ void OutgoingIqManager::finish(const QString &id, IqResult &&result)
 
 void OutgoingIqManager::cancelAll()
 {
-    for (auto &[id, state] : m_requests) {
+    // continuations may start new requests: cancel a detached copy of the table
+    auto requests = std::move(m_requests);
+    m_requests.clear();
+    for (auto &[id, state] : requests) {
         state.interface.finish(QXmppError {
             u"IQ has been cancelled."_s,
             QXmpp::SendError::Disconnected });
     }
-    m_requests.clear();
 }
 
 void OutgoingIqManager::onSessionOpened(const SessionBegin &session)
